@@ -60,11 +60,20 @@ inductive Sel where
   | inline (on : Option String) (dirs : List Dir) (ssid : Nat) (sub : List Sel)
   deriving Repr, Inhabited
 
+/-- no variable in the arguments: `Directives[Const]` of the grammar -/
+def Dir.isConst (d : Dir) : Bool := d.args.all fun a => !a.value.hasVar
+
 structure VarDef where
   name : String
   type : Ty
   default : Option Value
-  deriving Repr, Inhabited
+  /-- `Directives[Const]` of the definition (visited after the type since /repo 370692d) -/
+  dirs : List Dir := []
+  /-- the parser reads them with `parse_directives(const=True)`: a variable there is a syntax error -/
+  dirsConst : dirs.all Dir.isConst = true := by rfl
+
+instance : Inhabited VarDef := ⟨{ name := "", type := .named "", default := none }⟩
+instance : Repr VarDef := ⟨fun v _ => "VarDef(" ++ repr v.name ++ ", " ++ repr v.type ++ ", " ++ repr v.default ++ ", " ++ repr v.dirs ++ ")"⟩
 
 inductive Def where
   | op (kind : String) (name : Option String) (vars : List VarDef) (dirs : List Dir) (ssid : Nat) (sels : List Sel)
